@@ -482,6 +482,8 @@ def deepVal (h : Heap) (r : Ref) : Res Ref :=
 def copyItems (cp : Heap → String → Ref → Res Ref) (h : Heap) : Items → Res Items
   | [] => (h, .ok [])
   | (k, v) :: rest =>
+    if k = "infos" then copyItems cp h rest      -- /repo a12f060: the helper bound to self is not handed over
+    else
     match cp h k v with
     | (h, .error e) => (h, .error e)
     | (h, .ok v') =>
